@@ -516,6 +516,7 @@ type Contract struct {
 	Props      []string // property ids this contract serves
 	Lines      []string
 	NoSafe     bool
+	Track      []SpecClause
 }
 
 type LetSpec struct {
@@ -645,6 +646,12 @@ func (sp *Specs) parseFile(pkg string, lines []string) {
 					for _, a := range strings.Split(rest, ",") {
 						cur.Assigns = append(cur.Assigns, strings.TrimSpace(a))
 					}
+				}
+			}
+		case "track":
+			if cur != nil {
+				for _, t := range splitTop(rest) {
+					cur.Track = append(cur.Track, clause(t))
 				}
 			}
 		case "inline":
@@ -893,4 +900,27 @@ func parseSpecFun(s, pkg string) *SpecFun {
 		sf.Result = "bool"
 	}
 	return sf
+}
+
+// splitTop splits on commas that are not inside parentheses/brackets.
+func splitTop(s string) []string {
+	var out []string
+	depth, start := 0, 0
+	for i, r := range s {
+		switch r {
+		case '(', '[':
+			depth++
+		case ')', ']':
+			depth--
+		case ',':
+			if depth == 0 {
+				out = append(out, strings.TrimSpace(s[start:i]))
+				start = i + 1
+			}
+		}
+	}
+	if t := strings.TrimSpace(s[start:]); t != "" {
+		out = append(out, t)
+	}
+	return out
 }
